@@ -84,6 +84,46 @@ pub fn run(progs: &str, seed: u64, scheds: usize, out: &str) -> std::io::Result<
         // ---- reader program: fault at every device operation
         let ops = default_read_ops(&prog);
         let ctx = ReadCtx { direct_blobs: w.blobs.clone() };
+        let ref_reads0 = read_digest(&reference, &ops, &ctx, vec![]);
+        // (b) the same positions with the RETRYABLE error kind (Interrupted), once: loops inside std and the library
+        // may repeat the operation, so the call may succeed -- but then nothing may be different
+        for i in 0..nops_w {
+            let dev = Dev::new();
+            dev.0.borrow_mut().track_durable = true;
+            dev.0.borrow_mut().fault_interrupted = true;
+            dev.set_fault(Some(i));
+            let mut tt = TraceOut::create("/dev/null")?;
+            tt.keep = Some(Vec::new());
+            let wo = run_writer(&prog, &dev, &mut tt);
+            let evs = tt.keep.take().unwrap();
+            let fin_ok = evs.iter().any(|e| e["ev"] == "w_finalize" && e["res"].get("ok").is_some());
+            let durable = dev.0.borrow().durable.clone();
+            let same_reads = if fin_ok && durable != reference { read_digest(&durable, &ops, &ctx, vec![]) == ref_reads0 } else { durable == reference };
+            t.ev(json!({"ev":"c16_wintr","at":i,"fired": if dev.faulted() {1} else {0}, "panicked": if wo.panicked {1} else {0},
+                        "all_ok": if wo.all_ok {1} else {0}, "finalize_ok": if fin_ok {1} else {0},
+                        "durable_complete": if durable == reference {1} else {0}, "reads_complete": if same_reads {1} else {0}}));
+        }
+        // (c) a failed top-level finalize is tried again on the same writer (the device works again): Ok only with a complete file
+        {
+            let mut rprog = prog.clone();
+            rprog["stop_on_err"] = json!(false);
+            rprog["retry_finalize"] = json!(true);
+            for i in 0..nops_w {
+                let dev = Dev::new();
+                dev.0.borrow_mut().track_durable = true;
+                dev.set_fault(Some(i));
+                let mut tt = TraceOut::create("/dev/null")?;
+                tt.keep = Some(Vec::new());
+                let wo = run_writer(&rprog, &dev, &mut tt);
+                if !wo.retried {
+                    continue;
+                }
+                let durable = dev.0.borrow().durable.clone();
+                let reads_ok = wo.retry_ok && (durable == reference || read_digest(&durable, &ops, &ctx, vec![]) == ref_reads0);
+                t.ev(json!({"ev":"c16_wretry","at":i,"panicked": if wo.panicked {1} else {0}, "retry_ok": if wo.retry_ok {1} else {0},
+                            "reads_complete": if reads_ok {1} else {0}}));
+            }
+        }
         let rdev = Dev::from_bytes(reference.clone());
         {
             let mut tt = TraceOut::create("/dev/null")?;
